@@ -142,6 +142,38 @@ Proof.
   - intros H. exists (a, x). split; auto. apply filter_In. split; auto. simpl. apply aug_eqb_refl.
 Qed.
 
+Lemma aae_eqb_eq e f : aae_eqb e f = true <-> e = f.
+Proof.
+  destruct e as [a x], f as [b y]. unfold aae_eqb; simpl. rewrite andb_true_iff, !aug_eqb_eq.
+  split; [intros [-> ->]; auto|intros H; inversion H; auto].
+Qed.
+
+Lemma addaae_In e f l : In f (addaae e l) <-> f = e \/ In f l.
+Proof.
+  unfold addaae. destruct (existsb (aae_eqb e) l) eqn:E.
+  - apply existsb_exists in E. destruct E as [x [H E]]. apply aae_eqb_eq in E. subst x.
+    split; auto. intros [->|H']; auto.
+  - rewrite in_app_iff. simpl. split; intros [H|H]; auto. destruct H as [H|[]]; auto.
+Qed.
+
+Lemma fold_addaae_In b ts es e :
+  In e (fold_left (fun es t => addaae (b, t) es) ts es) <-> In e es \/ exists t, In t ts /\ e = (b, t).
+Proof.
+  revert es. induction ts as [|t ts IH]; intros es; simpl.
+  - split; auto. intros [H|[t [[] _]]]; auto.
+  - rewrite IH, addaae_In. split.
+    + intros [[->|H]|[t' [H1 H2]]]; eauto.
+    + intros [H|[t' [[<-|H1] H2]]]; eauto.
+Qed.
+
+Lemma achildren_In a x es : In x (achildren a es) <-> In (a, x) es.
+Proof.
+  unfold achildren. rewrite in_map_iff. split.
+  - intros [[b y] [H1 H2]]. simpl in H1. subst y. apply filter_In in H2. destruct H2 as [H2 H3].
+    simpl in H3. apply aug_eqb_eq in H3. subst; auto.
+  - intros H. exists (a, x). split; auto. apply filter_In. split; auto. simpl. apply aug_eqb_refl.
+Qed.
+
 (* ---------------------------------------------------------------- dictionaries *)
 Section DictLemmas.
   Context {V : Type}.
